@@ -101,6 +101,7 @@ type ImplContract struct {
 type InstanceCheck struct {
 	Name  string // package-level const/var
 	Type  string // required named type (origin name)
+	Behavioural string // set when the instance has another type whose methods are verified against the same models
 	Props []string
 	Line  int
 }
